@@ -19,7 +19,9 @@ RULE = ("cases = (declared graph, root, topological, checkCycles) listings, (dec
         "without version) queries, and integer graphs given to topologicalSort/stronglyConnectedComponents; graphs "
         "are generated from shapes (chain, diamond, shared sub-tree, random DAG, cyclic, name-cyclic across versions) "
         "with optional edges, explicit versions of declared and undeclared versions, two versions of one product, "
-        "names without a current version, unresolvable names, -j and unsetupRequired lines; a listing is "
+        "names without a current version, unresolvable names, -j and unsetupRequired lines, plus an exhaustive family "
+        "(4 products, every subset of 3 candidate lines per table: 4096 graphs; all of them in the thorough tier, a "
+        "seed-dependent slice of 30 otherwise); a listing is "
         "non-trivial when the root has at least one dependency, a uses query when it has at least one user, "
         "an integer graph when it has an edge; distinct = distinct (graph, query) digests")
 TRUSTED = ["utils.stronglyConnectedComponents (Tarjan) is modelled by its specification (mutual-reachability classes), "
@@ -52,7 +54,7 @@ def gen_graph(rng, wide=False):
     two = {"dag2": 0.7, "namecycle": 0.7}.get(shape, 0.3)          # share of names with two versions
     p_unres = 0.12 if rng.random() < 0.5 else 0.0
     p_uns = 0.15 if rng.random() < 0.12 else 0.0
-    p_j = 0.15 if rng.random() < 0.2 else 0.0
+    p_j = rng.choice([0.15, 0.3]) if rng.random() < 0.3 else 0.0
     p_expl = rng.choice([0.0, 0.3, 0.6])
     versions = {}
     for m in names:
@@ -87,8 +89,54 @@ def gen_graph(rng, wide=False):
             if deps and rng.random() < p_uns:
                 deps.insert(rng.randint(1, len(deps)), {"k": "unreq", "n": rng.choice(names), "v": None, "j": rng.random() < 0.3})
             prods.append({"name": m, "version": v, "deps": deps, "tags": ["current"] if v == cur else []})
+    if rng.random() < 0.3 and len(names) >= 3:
+        # a product reached through a -j line and through an ordinary path, in both orders, the -j target having
+        # dependencies of its own: it must be opened by the ordinary visit whichever comes first
+        byname = {}
+        for p in prods:
+            if "current" in p["tags"]:
+                byname.setdefault(p["name"], p)
+        cand = [m for m in names if m in byname]
+        if len(cand) >= 3:
+            x, y, z = rng.sample(cand, 3)
+            top = {"name": "jtop", "version": "1", "tags": ["current"], "deps": []}
+            jline = {"k": "req", "n": x, "v": None, "j": True}
+            oline = {"k": rng.choice(["req", "opt"]), "n": y, "v": None, "j": False}
+            top["deps"] = [jline, oline] if rng.random() < 0.5 else [oline, jline]
+            if not any(d["n"] == x and not d["j"] and d["k"] in ("req", "opt") for d in byname[y]["deps"]):
+                byname[y]["deps"].append({"k": "req", "n": x, "v": None, "j": False})
+            if not any(d["k"] in ("req", "opt") for d in byname[x]["deps"]):
+                byname[x]["deps"].append({"k": "req", "n": z, "v": None, "j": False})
+            prods.append(top)
+            shape += "+j"
     rng.shuffle(prods)
     return {"products": prods, "shape": shape}
+
+
+ENUM_LINES = {
+    ("a", "1"): [("req", "b", None), ("req", "c", None), ("req", "c", "2")],
+    ("b", "1"): [("req", "a", None), ("req", "c", None), ("opt", "c", "2")],
+    ("c", "1"): [("req", "a", None), ("req", "b", None), ("req", "zz", None)],
+    ("c", "2"): [("req", "a", None), ("opt", "b", None), ("req", "c", None)],
+}
+
+
+def enum_count(width=3):
+    return (2 ** width) ** len(ENUM_LINES)
+
+
+def enum_graph(i, width=3):
+    """The i-th graph of the exhaustive family: products a 1, b 1, c 1 (all current) and c 2; the table of each
+    is a subset of its first `width` candidate lines (ENUM_LINES).  Covers every combination of chain, diamond,
+    cycle (a-b, a-c, b-c, through either version of c), two versions in one closure, same-name dependency,
+    optional and unresolved lines over this alphabet."""
+    prods = []
+    for key in sorted(ENUM_LINES):
+        mask = i % (2 ** width)
+        i //= 2 ** width
+        deps = [{"k": k, "n": n, "v": v, "j": False} for b, (k, n, v) in enumerate(ENUM_LINES[key][:width]) if mask >> b & 1]
+        prods.append({"name": key[0], "version": key[1], "deps": deps, "tags": [] if key == ("c", "2") else ["current"]})
+    return {"products": prods, "shape": "enum"}
 
 
 def queries_of(graph):
@@ -177,6 +225,11 @@ def oracle_listing(R, root, mode, out, stats=None):
         names.setdefault(a[0], set()).add(a)
     twover = any(len(s) > 1 for s in names.values())
     if stats is not None:
+        jt = {t for u in expanded for t, j, _ in R.succ.get(u, []) if j and t[2]}
+        if any(t in expanded and R.succ.get(t) for t in jt):
+            stats("closure:j_target_opened_elsewhere")
+        if any(t not in expanded and R.succ.get(t) for t in jt):
+            stats("closure:j_target_not_opened")
         for flag, name in ((twover, "twoversions"), (cyclic, "cyclic"), (unsetup, "unsetup"), (any(not a[2] for a in nodes), "unresolved"),
                            (any(sum(1 for a in s if a[2]) > 1 for s in names.values()), "two_declared_versions")):
             if flag:
@@ -187,7 +240,7 @@ def oracle_listing(R, root, mode, out, stats=None):
                 yield ("cycle_only_when_asked", "D31" if twover else None, "RuntimeError without checkCycles")
             elif not cyclic and not unsetup:
                 yield ("cycle_only_when_cyclic", "D31" if twover else None, "cycle reported on an acyclic closure")
-        elif out == "Recursion" and unsetup and cyclic:
+        elif out == "Recursion" and unsetup and (cyclic or any(t == u for u in expanded for t, _, _ in R.succ.get(u, []))):
             yield ("terminates", "D32", "recursion limit: unsetupRequired inside a dependency cycle")
         else:
             yield ("no_error", None, "listing raised %s" % out)
@@ -323,8 +376,17 @@ def run_cli_sample(job):
             recs = [x for name, x in res["records"] if name == "uses" and x[1] != "UsesObject"]
         if recs:
             kind_, val = recs[-1]
-            return val
-        return res["error"] or "rc=%s" % res["rc"]
+        else:
+            val = res["error"] or "rc=%s" % res["rc"]
+        printed = None
+        if kind == "list" and not isinstance(val, str):
+            # what `eups list -D` printed: lines "<indent><name>   <version>"
+            printed = []
+            for line in res["stdout"].splitlines():
+                parts = line.replace("|", " ").split()
+                if len(parts) == 2:
+                    printed.append(parts)
+        return {"val": val, "printed": printed}
     finally:
         common.rmtree(root)
 
@@ -336,7 +398,20 @@ def in_child_job(job):
 
 def in_child_cli(job):
     r = common.in_child(run_cli_sample, job)
-    return r[1] if r[0] == "ok" else "crash:%r" % (r,)
+    return r[1] if r[0] == "ok" else {"val": "crash:%r" % (r,), "printed": None}
+
+
+def expected_print(root, mode, listing):
+    """`printProducts`: the root, then every entry whose product name has not been printed yet; nothing at all
+    for --checkCycles without --topological"""
+    if mode[1] and not mode[0]:
+        return []
+    out, seen = [[root[0], root[1]]], set()
+    for e in listing:
+        if e[0] not in seen:
+            seen.add(e[0])
+            out.append([e[0], str(e[1])])
+    return out
 
 
 # ---- model ---------------------------------------------------------------------------------------------
@@ -352,6 +427,7 @@ def model_lists(ans):
 # ---- evaluation ----------------------------------------------------------------------------------------
 
 def evaluate(ctx, graphs, ncli=2, corpus=False):
+    L.preimport()
     jobs = [(g, roots_of(g), queries_of(g)) for g in graphs]
     impl = parallel_map(in_child_job, jobs, workers=6)
     answers = ctx.lean.ask_many([model_request(*j) for j in jobs])
@@ -373,7 +449,9 @@ def evaluate(ctx, graphs, ncli=2, corpus=False):
             raise common.InfraError("implementation child failed: %r" % (io_["crash"],))
         R = Resolved(g)
         ml = model_lists(ans)
-        ctx.hist("shape=%s" % g.get("shape", "corpus"))
+        ctx.hist("shape=%s" % g.get("shape", "corpus").replace("+j", ""))
+        if g.get("shape", "").endswith("+j"):
+            ctx.hist("shape+j")
         ctx.hist("products=%d" % len(g["products"]))
         for ri, r in enumerate(roots):
             for mi, mode in enumerate(MODES):
@@ -414,9 +492,15 @@ def evaluate(ctx, graphs, ncli=2, corpus=False):
                     for clause, fid, detail in oracle_users(R, g, q, out, cache):
                         ctx.fail(clause, inp, out, mo, note=detail, finding=fid)
     # the command-line sample: must equal what the API gave (hence the model)
-    for (gi, kind, a), out in zip(clijobs, cliout):
+    for (gi, kind, a), res in zip(clijobs, cliout):
         g, roots, queries = jobs[gi]
+        out = res["val"]
         ctx.hist("cli:%s" % kind)
+        if res["printed"] is not None:
+            want = expected_print(roots[a[0]], MODES[a[1]], out)
+            if res["printed"] != want:
+                ctx.fail("cli_prints_listing", {"graph": g, "root": roots[a[0]], "mode": MODES[a[1]], "via": "command line"},
+                         res["printed"], want, note="eups list -D printed something else than the listing it computed")
         if kind == "list":
             api = impl[gi]["lists"][a[0]][a[1]]
             inp = {"graph": g, "root": roots[a[0]], "mode": MODES[a[1]], "via": "command line"}
@@ -546,7 +630,18 @@ def run(ctx):
     if cg:
         evaluate(ctx, cg, ncli=1)
     evaluate_topo(ctx, ctx.n(1500, 40000))
-    n = ctx.n(130, 6000)
+    # exhaustive small family: all of it in the thorough tier, a slice that moves with the seed otherwise
+    total = enum_count()
+    if ctx.tier == "thorough" or ctx.escalated:
+        ids = list(range(total))
+        ctx.note("exhaustive family: all %d graphs over %s" % (total, sorted(ENUM_LINES)))
+    else:
+        ids = [(ctx.seed * 977 + k * 103) % total for k in range(30)]
+    for at in range(0, len(ids), 120):
+        if ctx.out_of_time():
+            break
+        evaluate(ctx, [enum_graph(i) for i in ids[at:at + 120]], ncli=1 if ctx.tier != "thorough" else 0)
+    n = ctx.n(120, 6000)
     done = 0
     while done < n and not ctx.out_of_time():
         k = min(60, n - done)
@@ -556,12 +651,14 @@ def run(ctx):
         raise common.InfraError("degenerate distribution: %d non-trivial of %d" % (ctx.distinct_nontrivial, ctx.evaluations))
     h = ctx.histogram
     if not ctx.escalated and n >= 100:
-        for need in ("closure:cyclic", "closure:two_declared_versions", "closure:unresolved", "shape=cyclic"):
+        for need in ("closure:cyclic", "closure:two_declared_versions", "closure:unresolved", "shape=cyclic",
+                     "closure:j_target_opened_elsewhere", "closure:j_target_not_opened"):
             if not h.get(need):
                 raise common.InfraError("degenerate distribution: no case with %s" % need)
 
 
 def replay(ctx, rp):
+    common.import_eups()
     inp = rp["input"]
     fails = []
     if "intgraph" in inp:
@@ -573,13 +670,18 @@ def replay(ctx, rp):
         return {"input": inp, "impl_output": impl, "model_output": a, "fails": []}
     g = inp["graph"]
     R = Resolved(g)
+    cli_fails = []
     if "root" in inp:
         roots, queries = [inp["root"]], []
     else:
         roots, queries = [], [inp["query"]] if inp.get("query") else queries_of(g)
     if inp.get("via") == "command line":
         kind = "list" if "root" in inp else "uses"
-        out = in_child_cli((g, kind, (inp["root"], inp["mode"]) if kind == "list" else inp["query"]))
+        res = in_child_cli((g, kind, (inp["root"], inp["mode"]) if kind == "list" else inp["query"]))
+        out = res["val"]
+        if res["printed"] is not None and res["printed"] != expected_print(inp["root"], inp["mode"], out):
+            cli_fails.append({"clause": "cli_prints_listing", "class": None,
+                              "detail": "printed %s, listing %s" % (res["printed"], expected_print(inp["root"], inp["mode"], out))})
         io_ = {"lists": [[out if m == inp.get("mode") else None for m in MODES]], "uses": "ok", "users": [out]}
     else:
         io_ = in_child_job((g, roots, queries))
@@ -595,4 +697,4 @@ def replay(ctx, rp):
         else:
             out, mo = io_["users"][0], (ans.get("users") or [None])[0]
             fails = [{"clause": c, "class": f, "detail": d} for c, f, d in oracle_users(R, g, queries[0], out, {})]
-    return {"input": inp, "impl_output": out, "model_output": mo, "agree": out == mo, "fails": fails}
+    return {"input": inp, "impl_output": out, "model_output": mo, "agree": out == mo, "fails": fails + cli_fails}
